@@ -58,6 +58,8 @@ def replay(rec):
             p1 = B.parts[0]
             quiet(p1.stage.set_value, p1.p[0], pval(final['stages'][0]['params'][0], final['stages'][0]['method']['N']))
             quiet(declare_constraint, p1, final['stages'][0]['cons'][-1], p1.stage)
+            p1.decl = final['stages'][0]        # (integrands are looked up in the declaration)
+            quiet(p1.stage.add_objective, mx(p1, final['stages'][0]['obj'][-2], p1.stage))
             quiet(p1.stage.add_objective, mx(p1, final['stages'][0]['obj'][-1], p1.stage))
             quiet(p1.stage.set_der, p1.x[0], mx(p1, final['stages'][0]['rhs'][0], p1.stage))
             before = declared_counts(B)
